@@ -666,7 +666,10 @@ pub fn main_entry(
 				// itself (generator, bookkeeping) - that is inconclusive, never a violation. Death by
 				// signal (SIGSEGV / SIGBUS / abort) can only come out of the library's unsafe code.
 				let harness_panic = st.code() == Some(101);
-				if spec.crash_is_violation && !cur.is_empty() && !harness_panic {
+				// SIGKILL is never raised by the program itself: the kernel's out-of-memory killer
+				// or an outside kill took the shard - resource exhaustion is inconclusive
+				let killed = std::os::unix::process::ExitStatusExt::signal(&st) == Some(9);
+				if spec.crash_is_violation && !cur.is_empty() && !harness_panic && !killed {
 					merged.violation(
 						format!("failure=process_abort;status={:?}", st.code().map(|c| c.to_string()).unwrap_or_else(|| format!("signal{}", std::os::unix::process::ExitStatusExt::signal(&st).unwrap_or(0)))),
 						format!("shard {} died ({:?}) while running case [{}]; log tail:\n{}", s, st, cur, logtail),
